@@ -8,6 +8,7 @@ open ElaVerif.Index ElaVerif.Node Driver BlockSpec
     reset
     init <reward> <maturity> <minFee> <guardFrom> <checkRewardFrom> <genesis block>
     deliver <block>        → main|side|orphan|err <tipHeight> <tipId>
+    deliverw <ts> <bits> <block>   same, with the header difficulty (work = CalcWork(bits))
     submit <tx>            → ok | err
     irr <lih> <dpos 0|1> <revertStart>     (C30: sets the DPoS state fields the guard reads)
     obs <q>*               u<txid> unspent indexes (sorted), a<addr> utxos of the address (sorted),
@@ -61,6 +62,12 @@ def step (s : NState) : List String → NState × String
       let (s', r) := processBlock s b
       (s', s!"{replyStr r} {s'.tip.height} {natToHex s'.tip.id}")
     | none => (s, "bad-op")
+  | "deliverw" :: _ts :: bits :: ts =>
+    match hexNat? bits, pBlock ts with
+    | some bits, some b =>
+      let (s', r) := processBlock s { b with bits := bits }
+      (s', s!"{replyStr r} {s'.tip.height} {natToHex s'.tip.id}")
+    | _, _ => (s, "bad-op")
   | "submit" :: ts =>
     match pTx ts with
     | some (tx, []) =>
